@@ -1,4 +1,6 @@
 """C04 — handlers are reachable only through the entry point of their own kind."""
+import base64
+import json
 import random
 
 from .. import casing, common as c, corpus, l2, translate
@@ -61,6 +63,16 @@ def run(ctx):
                 hid = rest[4:].split("|")[0]
             elif '"ran","' in rest:
                 hid = rest.split('"ran","')[1].split('"')[0]
+            elif rest.startswith('"'):
+                # a query answering with a String or with Binary (base64 of the same text)
+                try:
+                    s = json.loads(rest)
+                    if not s.startswith("ran="):
+                        s = base64.b64decode(s).decode("utf8", "replace")
+                    if s.startswith("ran="):
+                        hid = s[4:].split("|")[0]
+                except Exception:
+                    hid = None
             hk = kind_of.get(hid)
             if hk != k2:
                 bad += 1
